@@ -92,6 +92,14 @@ pub struct World {
     pub neighbours: Vec<(GrammarSrc, Spec)>,
     pub vehicle: Vehicle,
     pub faults: Vec<Fault>,
+    /// user state: a pre-existing actions file (meaningful with force off);
+    /// the same bytes in every world of a comparison
+    pub existing_actions: Option<Vec<u8>>,
+    /// timestamps of the files the world starts with: 0 = as written (grammar
+    /// first, then pre-existing outputs), 1 = the grammar is years older than
+    /// everything else, 2 = pre-existing outputs are years older than the
+    /// grammar, 3 = all at the same second
+    pub mtime_mode: u8,
 }
 
 impl World {
@@ -111,6 +119,8 @@ impl World {
             neighbours: vec![],
             vehicle: Vehicle::Thread,
             faults: vec![],
+            existing_actions: None,
+            mtime_mode: 0,
         }
     }
     pub fn to_json(&self) -> Value {
@@ -123,6 +133,8 @@ impl World {
             "neighbours": self.neighbours.iter().map(|(g, s)| json!({"grammar": g.to_json(), "spec": s.to_json()})).collect::<Vec<_>>(),
             "vehicle": match self.vehicle { Vehicle::Thread => "thread", Vehicle::ProcessDir => "process_dir", Vehicle::Rcomp => "rcomp", Vehicle::RcompDir => "rcomp_dir" },
             "faults": self.faults.iter().map(|f| json!({"event": f.event, "kind": f.kind, "arg": f.arg})).collect::<Vec<_>>(),
+            "mtime_mode": self.mtime_mode,
+            "existing_actions_hex": self.existing_actions.as_ref().map(|a| hex(a)),
         })
     }
     pub fn from_json(v: &Value) -> Option<World> {
@@ -162,7 +174,37 @@ impl World {
                 .iter()
                 .map(|f| Some(Fault { event: f.get("event")?.as_u64()?, kind: f.get("kind")?.as_u64()? as u8, arg: f.get("arg")?.as_i64()? as i32 }))
                 .collect::<Option<Vec<_>>>()?,
+            existing_actions: match v.get("existing_actions_hex") {
+                Some(Value::String(h)) => Some(unhex(h)?),
+                _ => None,
+            },
+            mtime_mode: v.get("mtime_mode").and_then(|x| x.as_u64()).unwrap_or(0) as u8,
         })
+    }
+}
+
+/// World dimension `mtime_mode`: back-date the grammar or the pre-existing
+/// outputs (fixed instants, no clock read).
+fn apply_mtimes(world: &World, spec: &Spec, l: &Layout, target: &GrammarSrc) {
+    if world.mtime_mode == 0 {
+        return;
+    }
+    let old = std::time::UNIX_EPOCH + std::time::Duration::from_secs(978_307_200); // 2001
+    let set = |p: &Path| {
+        if let Ok(f) = std::fs::File::options().append(true).open(p) {
+            let _ = f.set_modified(old);
+        }
+    };
+    let pdir = if spec.parser_in_out() { l.out.join("src") } else { l.src.clone() };
+    let adir = if spec.actions_in_out() { l.out_act.join("src") } else { l.src.clone() };
+    let outputs = [pdir.join(format!("{}.rs", target.stem)), adir.join(format!("{}_actions.rs", target.stem))];
+    match world.mtime_mode {
+        1 => set(&l.grammar),
+        2 => outputs.iter().for_each(|p| set(p)),
+        _ => {
+            set(&l.grammar);
+            outputs.iter().for_each(|p| set(p));
+        }
     }
 }
 
@@ -305,7 +347,8 @@ pub fn prepare(env: &Env, target: &GrammarSrc, spec: &Spec, world: &World) -> st
         std::fs::write(d.join(format!("{}.rustemo", g.stem)), &g.bytes)?;
     }
     if world.stale != 0 {
-        let (pdir, adir) = if spec.out_dirs { (l.out.join("src"), l.out_act.join("src")) } else { (l.src.clone(), l.src.clone()) };
+        let pdir = if spec.parser_in_out() { l.out.join("src") } else { l.src.clone() };
+        let adir = if spec.actions_in_out() { l.out_act.join("src") } else { l.src.clone() };
         std::fs::create_dir_all(&pdir)?;
         std::fs::create_dir_all(&adir)?;
         if let Some(b) = stale_bytes(world.stale, "parser") {
@@ -752,7 +795,8 @@ fn run_rcomp(env: &Env, target: &GrammarSrc, spec: &Spec, world: &World, l: &Lay
 
 /// One world, one compile of the target.  Deterministic given its arguments.
 pub fn run_world(env: &Env, target: &GrammarSrc, spec: &Spec, world: &World) -> Outcome {
-    run_world_with(env, target, spec, world, None)
+    let existing = if spec.force { None } else { world.existing_actions.clone() };
+    run_world_with(env, target, spec, world, existing.as_deref())
 }
 
 /// Like `run_world`, with a pre-existing actions file of exactly these bytes
@@ -760,10 +804,11 @@ pub fn run_world(env: &Env, target: &GrammarSrc, spec: &Spec, world: &World) -> 
 pub fn run_world_with(env: &Env, target: &GrammarSrc, spec: &Spec, world: &World, actions: Option<&[u8]>) -> Outcome {
     let prepared = prepare(env, target, spec, world).and_then(|l| {
         if let Some(a) = actions {
-            let adir = if spec.out_dirs { l.out_act.join("src") } else { l.src.clone() };
+            let adir = if spec.actions_in_out() { l.out_act.join("src") } else { l.src.clone() };
             std::fs::create_dir_all(&adir)?;
             std::fs::write(adir.join(format!("{}_actions.rs", target.stem)), a)?;
         }
+        apply_mtimes(world, spec, &l, target);
         Ok(l)
     });
     let l = match prepared {
